@@ -19,6 +19,7 @@ package c07
 import (
 	"encoding/json"
 	"os"
+	"strings"
 	"testing"
 
 	"verif/internal/ev"
@@ -83,10 +84,14 @@ func TestCheck(t *testing.T) {
 	// Monitor 1: linear Selector/Learner protocol inside the scheduler
 	// harness. (Runs before, never concurrently with, runStore: runStore
 	// reads process-global Prometheus counters.)
-	runProtocol(r)
+	if monitorEnabled("protocol") {
+		runProtocol(r)
+	}
 
 	// Monitor 2: well-formed choices (pure, high volume).
-	if !runChoices(r) {
+	if !monitorEnabled("choices") {
+		// diagnostic run of a subset of the monitors
+	} else if !runChoices(r) {
 		// A case hung (already reported): its goroutines keep spinning
 		// and would starve and distort the concurrency rounds below.
 		r.Inconclusive("store monitor not run: a choices case hung and still occupies its goroutine")
@@ -94,5 +99,24 @@ func TestCheck(t *testing.T) {
 	}
 
 	// Monitor 3: persistence of the mutable proto store.
-	runStore(r)
+	if monitorEnabled("store") {
+		runStore(r)
+	}
+}
+
+// monitorEnabled implements the diagnostic switch VERIF_C07_MONITORS (a
+// comma-separated subset of protocol,choices,store; unset = all). It exists
+// to attribute statement coverage to a monitor (tools/coverage.sh); ./check
+// never sets it.
+func monitorEnabled(name string) bool {
+	v := os.Getenv("VERIF_C07_MONITORS")
+	if v == "" {
+		return true
+	}
+	for _, m := range strings.Split(v, ",") {
+		if strings.TrimSpace(m) == name {
+			return true
+		}
+	}
+	return false
 }
